@@ -8,6 +8,9 @@ from .. import tlc, graph, tracecheck
 from ..impl_record import RecordImpl
 
 
+OFFDT = ["int64", "int32", "int16", "int8", "uint8", "uint8"]      # dtypes of tensor-valued offsets (seeded C01-m5)
+
+
 def mc_constants(*, dur, E0, vals, pdty, kinds, dt=4, incl=False, kind0="none", dty0="f", kmul=2, tols=(0,),
                  offs=(0, 1), dtset=(4,), durset=(8,), esizes=(1,), depth=100):
     return dict(E0=E0, Kind0=kind0, Dty0=dty0, Dt0=dt, Dur0=dur, Incl0=incl, Vals=set(vals), PDty=set(pdty),
@@ -69,6 +72,7 @@ def replay_graph(chk: Check, g: graph.Graph, consts: dict, *, budget, rng, param
     hdr = hdr_from_consts(consts, param, tick)
     if param and hdr["kind"] == "none":
         hdr["kind"] = "empty"   # a parameter record cannot hold None; start from an empty parameter
+    hdr["offdt"] = rng.choice(OFFDT)
     make = lambda: RecordImpl(hdr)
     init_key = graph.canon(make().project())
     if init_key not in g.states:
@@ -241,7 +245,8 @@ def random_record_traces(rng, count, families, steps=30, dyadic_only=False, trac
             durk = D * n
             dur_s = max(0.0, ((n - 1.5) if incl else (n - 0.5)) * dt_s) if not (incl and n == 1) else 0.0
         hdr = {"kind": kind, "dty": dty, "dtk": D, "durk": durk, "incl": incl, "shape": list(shape),
-               "param": param, "tick": tick, "dt_s": dt_s, "dur_s": dur_s, "track_temporal": track_temporal}
+               "param": param, "tick": tick, "dt_s": dt_s, "dur_s": dur_s, "track_temporal": track_temporal,
+               "offdt": rng.choice(OFFDT)}
         impl = RecordImpl(hdr)
         st = impl.project()
         if st["n"] != n:
